@@ -217,6 +217,12 @@ class FormulaGenerator(ABC, Generic[QuantityT]):
         assert meter.category == ComponentCategory.METER
 
         graph = connection_manager.get().component_graph
+
+        # The grid meter measures the whole site, including loads that have no meter of
+        # their own, so the components connected to it can't stand in for it.
+        if graph.is_grid_meter(meter):
+            return set()
+
         successors = graph.successors(meter.component_id)
 
         # All fallbacks has to be of the same type and category.
